@@ -413,12 +413,27 @@ func worker(run *ev.Run, scs []*scenario, keys *wit.WitKeys, stores []string, di
 		prefix []int
 		bound  int
 	}
-	var jobs []job
+	// planning is split too: worker k expands the schedule-tree prefixes of every n-th (scenario, store)
+	// pair and publishes them; after a barrier every worker knows the whole job list
+	type planned struct {
+		Scen   string
+		Kind   string
+		Prefix []int
+		Bound  int
+	}
+	var mine []planned
+	combo := 0
+	byName := map[string]*scenario{}
 	for _, sc := range scs {
+		byName[sc.name] = sc
 		if f := os.Getenv("VERIF_C05_SCEN"); f != "" && !strings.Contains(sc.name, f) {
 			continue
 		}
 		for _, kind := range stores {
+			combo++
+			if combo%n != me {
+				continue
+			}
 			bound := sc.qb
 			if run.Thorough() {
 				bound = sc.tb
@@ -426,29 +441,58 @@ func worker(run *ev.Run, scs []*scenario, keys *wit.WitKeys, stores []string, di
 			if kind != "mem" && len(sc.tasks) < 4 {
 				bound = -1 // single-connection SQLite is almost serial: exhaustive up to 3 tasks
 			}
+			if kind != "mem" && len(sc.tasks) >= 4 && (bound < 0 || bound > 3) {
+				bound = 3
+			}
+			if kind == "sqlfile" && len(sc.tasks) >= 4 {
+				continue // file-backed runs cost an fsync per commit: 4-task scenarios stay on :memory:
+			}
 			rc := &runCtx{sc: sc, kind: kind, dir: dir, keys: keys}
 			if e, _ := rc.build(); e == nil {
 				// the fault-free sequential prelude never returned
-				if me == 0 {
-					if rc.wedgeProven {
-						run.Violate("deadlock;sequential_prelude/"+kind, rc.wedge, -1, map[string]any{"scenario": sc.name})
-					} else {
-						run.Inconclusive(rc.wedge)
-					}
+				if rc.wedgeProven {
+					run.Violate("deadlock;sequential_prelude/"+kind, rc.wedge, -1, map[string]any{"scenario": sc.name})
+				} else {
+					run.Inconclusive(rc.wedge)
 				}
 				continue
 			}
 			mk := func() *sched.Exec { e, _ := rc.build(); return e }
-			for _, p := range sched.Prefixes(mk, 5, bound) {
-				jobs = append(jobs, job{sc, kind, p, bound})
+			for _, p := range sched.Prefixes(mk, 6, bound) {
+				mine = append(mine, planned{sc.name, kind, p, bound})
 			}
+		}
+	}
+	pb, _ := json.Marshal(mine)
+	_ = os.WriteFile(filepath.Join(dir, fmt.Sprintf("plan-%d.tmp", me)), pb, 0o644)
+	_ = os.Rename(filepath.Join(dir, fmt.Sprintf("plan-%d.tmp", me)), filepath.Join(dir, fmt.Sprintf("plan-%d.json", me)))
+	var jobs []job
+	for k := 0; k < n; k++ {
+		var part []planned
+		for tries := 0; ; tries++ {
+			b, err := os.ReadFile(filepath.Join(dir, fmt.Sprintf("plan-%d.json", k)))
+			if err == nil && json.Unmarshal(b, &part) == nil {
+				break
+			}
+			if tries > 3000 {
+				run.Inconclusive(fmt.Sprintf("worker %d never published its plan", k))
+				return
+			}
+			time.Sleep(100 * time.Millisecond)
+		}
+		for _, p := range part {
+			jobs = append(jobs, job{byName[p.Scen], p.Kind, p.Prefix, p.Bound})
 		}
 	}
 	sampled := map[string]bool{}
 	for ji, j := range jobs {
-		if ji%n != me {
+		// dynamic distribution: every worker computes the same job list and claims jobs one at a time
+		// (subtree sizes differ by orders of magnitude, a static split leaves most workers idle)
+		f, err := os.OpenFile(filepath.Join(dir, fmt.Sprintf("claim-%d", ji)), os.O_CREATE|os.O_EXCL|os.O_WRONLY, 0o644)
+		if err != nil {
 			continue
 		}
+		f.Close()
 		unit := int64(ji)
 		rc := &runCtx{sc: j.sc, kind: j.kind, dir: dir, keys: keys}
 		var fin func() *execRec
